@@ -57,8 +57,8 @@ func init() {
 	core.Register(&core.Prop{
 		ID:       "C04",
 		Title:    "heapz heaps behave as priority queues with stable element handles",
-		Quick:    20000,
-		Thorough: 800000,
+		Quick:    15000,
+		Thorough: 600000,
 		Gen:      gen,
 		Corpus:   corpus,
 		Impl:     impl,
